@@ -220,8 +220,9 @@ theorem checkInt_spec (n : Int) :
   · have hn : ¬ (-(2:Int)^255 ≤ n ∧ n < (2:Int)^255) := fun hc => h (hr.mpr hc)
     simp only [h]
     refine ⟨by intro r hrr; simp at hrr, ?_⟩
-    simp only [Option.isSome_none, Bool.false_eq_true, false_iff]
-    exact hn
+    constructor
+    · intro hs; simp at hs
+    · intro hc; exact absurd hc hn
 
 example : execPure .pow [] [lit 255, lit 2] #[] = .error "integer out of range" ∧
     execPure .pow [] [lit 255, lit (-2)] #[] = .ok (.next [lit (-(2:Int)^255)] #[]) := by
@@ -269,6 +270,59 @@ example : execPure .negate [] [lit (-(2:Int)^255)] #[] = .error "integer out of 
 example : execPure .sub [] [lit 1, lit (-(2:Int)^255 + 1)] #[] = .ok (.next [lit (-(2:Int)^255)] #[]) := by
   decide +kernel
 
+/-- **bitwise.** AND / OR / XOR / INVERT act bit by bit on the 256-bit two's complement image
+(`toU256 n = n mod 2^256`), and their results are always in range. -/
+theorem bitwise_spec (a b : Int) :
+    (inRange (andI a b) = true ∧ toU256 (andI a b) = toU256 a &&& toU256 b) ∧
+    (inRange (orI a b) = true ∧ toU256 (orI a b) = toU256 a ||| toU256 b) ∧
+    (inRange (xorI a b) = true ∧ toU256 (xorI a b) = toU256 a ^^^ toU256 b) ∧
+    (inRange a = true → inRange (notI a) = true ∧ toU256 (notI a) = 2^256 - 1 - toU256 a) :=
+  ⟨andI_spec a b, orI_spec a b, xorI_spec a b, notI_spec a⟩
+
+example : andI (-1) 5 = 5 ∧ orI (-8) 5 = -3 ∧ xorI (-1) 5 = -6 ∧ notI (-(2:Int)^255) = (2:Int)^255 - 1 := by decide
+
+/-! ## 3b. stack manipulation -/
+
+/-- run a list of parameterless stack instructions in sequence on (stack, heap). -/
+def execSeq : List Op → List Item → Heap → E Outcome
+  | [], st, h => .ok (.next st h)
+  | op :: ops, st, h =>
+    match execPure op [] st h with
+    | .ok (.next st' h') => execSeq ops st' h'
+    | r => r
+
+/-- **stack_laws.** The stack instructions are the permutations / copies their names say, for every
+stack content: SWAP∘SWAP, ROT³, REVERSE3², REVERSE4² are the identity; TUCK = SWAP;OVER; NIP = SWAP;DROP;
+DUP;DROP and OVER;DROP are the identity; REVERSE3 = SWAP;ROT;... (as stated). -/
+theorem stack_laws (x y z w : Item) (st : List Item) (h : Heap) :
+    execSeq [.swap, .swap] (x :: y :: st) h = .ok (.next (x :: y :: st) h) ∧
+    execSeq [.rot, .rot, .rot] (x :: y :: z :: st) h = .ok (.next (x :: y :: z :: st) h) ∧
+    execSeq [.reverse3, .reverse3] (x :: y :: z :: st) h = .ok (.next (x :: y :: z :: st) h) ∧
+    execSeq [.reverse4, .reverse4] (x :: y :: z :: w :: st) h = .ok (.next (x :: y :: z :: w :: st) h) ∧
+    execSeq [.tuck] (x :: y :: st) h = execSeq [.swap, .over] (x :: y :: st) h ∧
+    execSeq [.nip] (x :: y :: st) h = execSeq [.swap, .drop] (x :: y :: st) h ∧
+    execSeq [.dup, .drop] (x :: st) h = .ok (.next (x :: st) h) ∧
+    execSeq [.over, .drop] (x :: y :: st) h = .ok (.next (x :: y :: st) h) ∧
+    execSeq [.reverse3] (x :: y :: z :: st) h = .ok (.next (z :: y :: x :: st) h) ∧
+    execSeq [.rot] (x :: y :: z :: st) h = .ok (.next (z :: x :: y :: st) h) ∧
+    execSeq [.clear] (x :: st) h = .ok (.next [] h) := by
+  have h3 : ¬ (st.length + 1 + 1 + 1 < 3) := by omega
+  have h4 : ¬ (st.length + 1 + 1 + 1 + 1 < 4) := by omega
+  simp [execSeq, execPure, popE, bind, Except.bind, h3, h4]
+
+/-- indexed forms agree with the fixed ones: PICK 0 = DUP, PICK 1 = OVER, ROLL 1 = SWAP, ROLL 2 = ROT,
+XDROP 0 = DROP, XDROP 1 = NIP, REVERSEN 3 = REVERSE3 (the index is an Integer item on top). -/
+theorem stack_indexed_laws (x y z : Item) (st : List Item) (h : Heap) :
+    execPure .pick [] (lit 0 :: x :: st) h = execPure .dup [] (x :: st) h ∧
+    execPure .pick [] (lit 1 :: x :: y :: st) h = execPure .over [] (x :: y :: st) h ∧
+    execPure .roll [] (lit 1 :: x :: y :: st) h = execPure .swap [] (x :: y :: st) h ∧
+    execPure .roll [] (lit 2 :: x :: y :: z :: st) h = execPure .rot [] (x :: y :: z :: st) h ∧
+    execPure .xdrop [] (lit 0 :: x :: st) h = execPure .drop [] (x :: st) h ∧
+    execPure .xdrop [] (lit 1 :: x :: y :: st) h = execPure .nip [] (x :: y :: st) h ∧
+    execPure .reverseN [] (lit 3 :: x :: y :: z :: st) h = execPure .reverse3 [] (x :: y :: z :: st) h := by
+  simp [execPure, popIdx, popInt, popE, lit, Item.toInteger, toInt32, optE, bind, Except.bind, pure, Except.pure,
+    listRemove]
+
 /-! ## 4. EQUAL -/
 
 /-- **equals_refl.** Every item equals itself; the one exception is a ByteString longer than
@@ -295,5 +349,91 @@ example : itemEquals #[] (lit 1) (.bytes (List.replicate 65537 0)) = some false 
     itemEquals #[] (.bytes (List.replicate 65537 0)) (lit 1) = none := by decide +kernel
 example : itemEquals #[] (lit 1) (.bool true) = some false ∧ itemEquals #[.items []] (.array 0) (.array 0) = some true := by
   decide +kernel
+
+/-! ## 5. range_closed
+
+Integer items have type `Int256 = { n : Int // inRange n }` (Model/Vm/Num.lean): the definition of
+`step` only type-checks because every integer it constructs either comes out of `checkInt` (the
+explicit 256-bit check, FAULT on failure) or is an existing item that is moved. The theorem below
+spells the consequence out as an invariant over `step`/`run`: collect every integer that occurs
+anywhere in the machine — evaluation stacks, static/local/argument slots, the pending exception,
+the result stack, and inside every heap object (arrays, structs, map keys and values) — all of
+them are within 256 bits, in every state reachable from any loaded script. -/
+
+def itemInts : Item → List Int
+  | .int n => [n.val]
+  | _ => []
+
+def objInts : HeapObj → List Int
+  | .buf _ => []
+  | .items xs => xs.flatMap itemInts
+  | .entries kv => kv.flatMap fun e => itemInts e.1 ++ itemInts e.2
+
+/-- all integers held by the machine. -/
+def vmInts (v : Vm) : List Int :=
+  (v.roots ++ v.uncaught.toList).flatMap itemInts ++ v.heap.toList.flatMap objInts
+
+theorem itemInts_inRange (x : Item) : ∀ n ∈ itemInts x, inRange n = true := by
+  cases x <;> simp [itemInts]
+  case int m => exact m.property
+
+theorem objInts_inRange (o : HeapObj) : ∀ n ∈ objInts o, inRange n = true := by
+  cases o with
+  | buf b => simp [objInts]
+  | items xs =>
+    intro n hn
+    simp only [objInts, List.mem_flatMap] at hn
+    obtain ⟨x, _, hx⟩ := hn
+    exact itemInts_inRange x n hx
+  | entries kv =>
+    intro n hn
+    simp only [objInts, List.mem_flatMap, List.mem_append] at hn
+    obtain ⟨e, _, hx | hx⟩ := hn
+    · exact itemInts_inRange _ n hx
+    · exact itemInts_inRange _ n hx
+
+theorem vmInts_inRange (v : Vm) : ∀ n ∈ vmInts v, inRange n = true := by
+  intro n hn
+  simp only [vmInts, List.mem_append, List.mem_flatMap] at hn
+  rcases hn with ⟨x, _, hx⟩ | ⟨o, _, ho⟩
+  · exact itemInts_inRange x n hx
+  · exact objInts_inRange o n ho
+
+/-- **range_closed.** Every integer in the machine after a step is within 256 bits. -/
+theorem range_closed (cfg : Cfg) (v : Vm) :
+    ∀ n ∈ vmInts (step cfg v), -(2:Int)^255 ≤ n ∧ n < (2:Int)^255 := by
+  intro n hn
+  have := vmInts_inRange _ n hn
+  simpa [inRange] using this
+
+/-- … hence in every state reachable by running any script on any (well-typed) arguments. -/
+theorem range_closed_run (cfg : Cfg) (prog : Array UInt8) (args : List Item) (gas : Option Nat) (k : Nat) :
+    ∀ n ∈ vmInts (run cfg k (Vm.load prog args gas)), -(2:Int)^255 ≤ n ∧ n < (2:Int)^255 := by
+  intro n hn
+  have := vmInts_inRange _ n hn
+  simpa [inRange] using this
+
+-- non-vacuity: the collected integers really are the ones on the stack and in the heap
+-- (PUSH2 PUSH1 PACK: the array [1] … no: PUSH5 PUSH1 PACK leaves an array holding 5)
+example : vmInts (run {} 10 (Vm.load #[0x15, 0x11, 0xc0, 0x17] [] none)) = [7, 5] := by decide +kernel
+-- … and an instruction whose mathematical result leaves the range FAULTs instead of storing it
+example : (run {} 10 (Vm.load #[0x9c] [lit ((2:Int)^255 - 1)] none)).state = .fault := by decide +kernel
+
+/-! ## 6. where the implementation differs from the specification (known finding)
+
+The specification counts *reachable* references against `MaxStackSize` (`reach`). The Go VM keeps a
+running counter with per-object reference counts (ref_counter.go), which never releases a compound
+object that refers to itself, so unreachable cyclic garbage stays counted. Witness (replayed on the
+real VM by case "limits" of the corpus, oracle key `refcount-cyclic-garbage`): three times
+`PUSHINT16 1000; NEWARRAY; DUP; DUP; APPEND; DROP`, then `PUSH1`. The specification HALTs with `[1]`
+holding one reference; the real VM FAULTs at the third NEWARRAY with "stack is too big: 3003 vs 2048". -/
+
+def cyclicGarbageScript : Array UInt8 :=
+  #[0x01, 0xe8, 0x03, 0xc3, 0x4a, 0x4a, 0xcf, 0x45,  0x01, 0xe8, 0x03, 0xc3, 0x4a, 0x4a, 0xcf, 0x45,
+    0x01, 0xe8, 0x03, 0xc3, 0x4a, 0x4a, 0xcf, 0x45,  0x11]
+
+theorem spec_halts_on_cyclic_garbage :
+    let r := run {} 30 (Vm.load cyclicGarbageScript [] none)
+    r.state = .halt ∧ r.result = [lit 1] ∧ reach r = 1 := by decide +kernel
 
 end NeoModel.Vm.C13
